@@ -636,6 +636,16 @@ class CFG:
         body.discard(head)
         return body
 
+    def lexical_body(self, head: Node) -> set[Node]:
+        """Nodes whose statement is written inside the loop statement of `head` (includes raise/break/return exits,
+        which the natural loop excludes)."""
+        inside: set[int] = set()
+        for s in head.stmt.body + getattr(head.stmt, "orelse", []):  # type: ignore[union-attr]
+            for x in ast.walk(s):
+                inside.add(id(x))
+        return {n for n in self.nodes if n in self.reachable and n is not head and
+                ((n.stmt is not None and id(n.stmt) in inside) or (n.ast is not None and id(n.ast) in inside))}
+
     def loop_heads(self) -> list[Node]:
         return [n for n in self.nodes if n in self.reachable and (n.kind == "for" or (n.kind == "test" and isinstance(n.stmt, ast.While)))]
 
